@@ -2138,9 +2138,11 @@ evhttp_header_is_valid_value(const char *value)
 	const char *p = value;
 
 	while ((p = strpbrk(p, "\r\n")) != NULL) {
-		/* we really expect only one new line */
-		p += strspn(p, "\r\n");
-		/* we expect a space or tab for continuation */
+		/* exactly one CRLF ... */
+		if (p[0] != '\r' || p[1] != '\n')
+			return (0);
+		p += 2;
+		/* ... followed by a space or tab for continuation */
 		if (*p != ' ' && *p != '\t')
 			return (0);
 	}
